@@ -77,10 +77,10 @@ def build_obj(spec, rng_seed, twin=False):
     if kind == "user":
         from skcriteria.extend import mkagg, mktransformer
         if spec["which"] == "agg":
-            @mkagg(p=2)
+            @mkagg(p=2, offset=0.25)
             def UserAgg(matrix, weights, hparams, **kwargs):
                 from skcriteria.utils import rank
-                s = (np.asarray(matrix, dtype=float) ** hparams.p) @ np.asarray(weights, dtype=float)
+                s = ((np.asarray(matrix, dtype=float) + hparams.offset) ** hparams.p) @ np.asarray(weights, dtype=float)
                 return rank.rank_values(s, reverse=True), {"score": s}
             UserAgg(p=5)            # somebody else configured one of these differently: no business of ours
             UserAgg().copy(p=7)
@@ -282,8 +282,9 @@ def run_seq(case):
         s0 = state_of(obj)
         problems = []
         if case["spec"]["kind"] == "user":
-            want = {"p": 2} if case["spec"]["which"] == "agg" else {"k": 3.0}
-            if dict(obj.get_parameters()) != want:
+            want = {"p": 2, "offset": 0.25} if case["spec"]["which"] == "agg" else {"k": 3.0}
+            got_attr = {k: getattr(obj, k, None) for k in want}
+            if dict(obj.get_parameters()) != want or got_attr != want:
                 problems.append(f"a fresh user-made method with default hyper-parameters reports {obj.get_parameters()} "
                                 f"(declared defaults {want})")
         for k, item in enumerate(case["seq"]):
